@@ -114,6 +114,9 @@ class RCA(MahalanobisMixin, TransformerMixin):
       total_cov = np.cov(X[chunk_mask], rowvar=0)
       tmp = np.linalg.lstsq(total_cov, inner_cov, rcond=None)[0]
       vals, vecs = np.linalg.eig(tmp)
+      # tmp is similar to a symmetric PSD matrix, so its spectrum is real, but
+      # recent numpy versions return complex arrays from eig regardless
+      vals, vecs = vals.real, vecs.real
       inds = np.argsort(vals)[:dim]
       A = vecs[:, inds]
       inner_cov = np.atleast_2d(A.T.dot(inner_cov).dot(A))
